@@ -66,18 +66,19 @@ Print Assumptions C01_plan_types_unique.
    entry is unused or carries the planned stream type and spans exactly the stream's header/array objects; the header
    and directory objects sit at 0 and 32.  (The check compares this model's image byte for byte with real images.) *)
 Theorem C01_whole_image_sound : forall c,
-  exists dirs s', image c empty_wst = Ok (dirs, s') /\ Inv s' /\
-    Forall2 (fun d ty => stream_ok ty (w_objs s') d) dirs plan_types /\
+  exists r s', image c empty_wst = Ok (r, s') /\ Inv s' /\
+    Forall2 (fun d ty => stream_ok ty (w_objs s') d) (fst r) plan_types /\
     In {| o_kind := KHeader; o_rva := 0; o_len := HEADER_SZ |} (w_objs s') /\
-    In {| o_kind := KDirectory; o_rva := HEADER_SZ; o_len := DIRENT_SZ * NUM_DIRS |} (w_objs s').
+    In {| o_kind := KDirectory; o_rva := HEADER_SZ; o_len := DIRENT_SZ * NUM_DIRS |} (w_objs s') /\
+    Forall snap_ok (snd r).
 Proof. exact image_sound. Qed.
 Print Assumptions C01_whole_image_sound.
 
 (* (5) ... and in the final image (below 4 GiB, the reach of the format's 32-bit offsets) the first 32 bytes are the header
    record (signature, version, the declared stream count, directory position 32) and the next 12 * 18 bytes are exactly
    the encodings of those entries, in order: nothing written later disturbs header or directory. *)
-Theorem C01_whole_image_directory : forall c dirs s',
-  image c empty_wst = Ok (dirs, s') -> small (blen s') ->
+Theorem C01_whole_image_directory : forall c dirs log s',
+  image c empty_wst = Ok ((dirs, log), s') -> small (blen s') ->
   slice (w_buf s') 0 HEADER_SZ = enc_header (ic_time c) (N.of_nat HEADER_SZ) /\
   slice (w_buf s') HEADER_SZ (DIRENT_SZ * NUM_DIRS) = concat (map enc_dirent dirs) /\
   length dirs = NUM_DIRS.
